@@ -1,6 +1,6 @@
 (* C08 — No bytes from the network can crash a node. *)
-From P2PV Require Import Lib.Base Lib.Varint Model.Mux Model.Frag Model.Mbapp Model.Chk
-  Proofs.MuxP Proofs.ChkP.
+From P2PV Require Import Lib.Base Lib.Varint Model.Mux Model.Frag Model.Mbapp Model.Chk Model.Handshake Model.Channel
+  Proofs.MuxP Proofs.ChkP Proofs.ChannelP Proofs.ChannelNP.
 Open Scope N_scope.
 
 (* The receive paths are modelled with Go's run-time checks explicit (Model/Chk.v):
@@ -29,6 +29,15 @@ Proof. exact mb_recv_chk_step. Qed.
 Theorem C08_mux_no_panic : forall k b site, unframe k b <> Panic site.
 Proof. exact unframe_no_panic. Qed.
 
+(* p/p2pke Channel: in every history of a channel (deliveries of arbitrary wire
+   messages, timer firings, sends, ageing) whose newly created sessions get tags
+   not yet in use, no operation panics: neither Channel.Deliver's panic(i) for a
+   session that becomes ready outside the prospective slot, nor writeHandshake's
+   missing cached message, is reachable *)
+Theorem C08_channel_never_panics : forall (accept : N -> bool) key ops,
+  never_panics accept (new_chan key) ops.
+Proof. intros accept key ops. apply channel_never_panics. apply invp_new. Qed.
+
 (* non-vacuity: the inconsistent-fragment sequence that crashed the unrepaired
    fragswarm (total 2 then part 3 of 5 for the same id) and the negative-offset
    sequence for mbapp are served without Panic, and the models do have reachable
@@ -45,3 +54,4 @@ Print Assumptions C08_mbapp_no_panic.
 Print Assumptions C08_frag_chk_eq.
 Print Assumptions C08_mbapp_chk_eq.
 Print Assumptions C08_mux_no_panic.
+Print Assumptions C08_channel_never_panics.
